@@ -837,7 +837,8 @@ def parallelism_sweep(ctx):
                 if role is None and x.attr == 'num_cores':
                     p_ = getattr(x, '_parent', None)
                     st_ = _stmt_up(x)
-                    if isinstance(p_, ast.Return):
+                    if _only_sink(x, fnode, lambda n_: isinstance(
+                            getattr(n_, '_parent', None), ast.Return)):
                         role = 'accessor of the client\'s number of cores'
                     elif isinstance(p_, ast.BoolOp) and isinstance(p_.op, ast.Or) and \
                             p_.values[-1] is x and isinstance(st_, ast.Assign) and \
@@ -859,15 +860,40 @@ def _stmt_up(n):
     return n
 
 
+def _is_key_value(node, key):
+    """node is the value of keyword / dict key `key`."""
+    p = getattr(node, '_parent', None)
+    if isinstance(p, ast.keyword) and p.arg == key and p.value is node:
+        return True
+    if isinstance(p, ast.Dict):
+        for k, v in zip(p.keys, p.values):
+            if v is node and isinstance(k, ast.Constant) and k.value == key:
+                return True
+    return False
+
+
+def _only_sink(node, fnode, sink):
+    """node itself satisfies `sink`, or it is bound to a local whose every read does."""
+    if sink(node):
+        return True
+    p = getattr(node, '_parent', None)
+    if isinstance(p, ast.Assign) and len(p.targets) == 1 and isinstance(p.targets[0], ast.Name) \
+            and p.value is node:
+        name = p.targets[0].id
+        loads = [n_ for n_ in ast.walk(fnode) if isinstance(n_, ast.Name) and n_.id == name and
+                 isinstance(n_.ctx, ast.Load)]
+        return bool(loads) and all(sink(l) for l in loads)
+    return False
+
+
+
 def _parallelism_role(x, fnode):
     p = getattr(x, '_parent', None)
     # handed on under its own name / as the initial batch-count estimate of an objective
-    if isinstance(p, ast.keyword) and p.arg in ('max_parallel_batches', 'n_batches'):
-        return 'handed on as `{}`'.format(p.arg)
-    if isinstance(p, ast.Dict):
-        for k, v in zip(p.keys, p.values):
-            if v is x and isinstance(k, ast.Constant) and k.value == 'n_batches':
-                return 'initial batch-count estimate of the objective'
+    if _is_key_value(x, 'max_parallel_batches'):
+        return 'handed on as `max_parallel_batches`'
+    if _only_sink(x, fnode, lambda n_: _is_key_value(n_, 'n_batches')):
+        return 'initial batch-count estimate of the objective'
     # the submission gate: compared with the number of pending batches
     if isinstance(p, ast.Compare):
         others = [e for e in [p.left] + list(p.comparators) if e is not x]
@@ -889,14 +915,6 @@ def _parallelism_role(x, fnode):
                 isinstance(st.targets[0], ast.Attribute) and \
                 st.targets[0].attr == 'batches_per_acquisition':
             return 'default of batches_per_acquisition'
-    # a local that only ever becomes the initial batch-count estimate
-    if isinstance(p, ast.Assign) and len(p.targets) == 1 and isinstance(p.targets[0], ast.Name):
-        name = p.targets[0].id
-        loads = [n_ for n_ in ast.walk(fnode) if isinstance(n_, ast.Name) and n_.id == name and
-                 isinstance(n_.ctx, ast.Load)]
-        if loads and all(isinstance(getattr(l, '_parent', None), ast.keyword) and
-                         l._parent.arg == 'n_batches' for l in loads):
-            return 'initial batch-count estimate of the objective'
     return None
 
 
